@@ -153,6 +153,29 @@ Theorem rms_explicit_wins : forall r T Rs fmin fmax, noise_rms (Some r) T Rs fmi
 Proof. exact rms_given. Qed.
 Print Assumptions rms_explicit_wins.
 
+(* the complete precedence table of the amplitude configuration (every argument absent / zero / anything): an explicit
+   rms_voltage - INCLUDING 0 - always wins; otherwise temperature and resistance must both be present; otherwise there is
+   no rms (ValueError) *)
+Theorem rms_precedence_table : forall rms T Rs fmin fmax,
+  noise_rms rms T Rs fmin fmax =
+  match rms, T, Rs with
+  | Some r, _, _ => Some r
+  | None, Some t, Some rs => Some (sqrt (k_B * t * rs * (fmax - fmin)))
+  | None, _, _ => None
+  end.
+Proof. exact rms_table. Qed.
+Print Assumptions rms_precedence_table.
+
+Theorem rms_zero_is_zero : forall T Rs fmin fmax, noise_rms (Some 0) T Rs fmin fmax = Some 0.
+Proof. exact rms_zero. Qed.
+Print Assumptions rms_zero_is_zero.
+
+(* ... and a zero rms is a zero waveform, both variants *)
+Theorem zero_rms_zero_waveform :
+  (forall z t, fn_rms z = 0 -> fft_noise_value z t = 0) /\ (forall freqs amps phases t, full_noise_value freqs amps phases 0 t = 0).
+Proof. exact (conj fft_zero_rms full_zero_rms). Qed.
+Print Assumptions zero_rms_zero_waveform.
+
 (* values are a function of (basis, absolute time): re-gridding reproduces the values at
    shared sample times (both variants); two objects with the same basis record z are the
    same function by construction of the model *)
